@@ -163,4 +163,8 @@ VARIANTS = [
          old="        if (max(value) > self._max) or (min(value) < self._min):", new="        if (max(value) >= self._max) or (min(value) < self._min):"),
     dict(name="c10-silent-extremes-as-chained-comparison", property="C10", expect="silent", file=V,
          old="        if (max(value) > self._max) or (min(value) < self._min):", new="        lo, hi = min(value), max(value)\n        if not self._min <= lo <= hi <= self._max:"),
+
+    # a context-manager class in place of the @contextmanager function
+    dict(name="c09-silent-disable-validation-as-class", property="C09", expect="silent", file=V, old='@contextmanager\ndef disable_message_validation(ignore=False):\n    """Context manager function to temporarily disable message field validation\n    Use with `with` keyword:\n    `with disable_message_validation():`\n\n    Optionally pass in ignore=True to do nothing, e.g. for debugging:\n\n    ```\n    DEBUG = True\n    with disable_message_validation(ignore=DEBUG):\n        ... # disable validation unless DEBUG is True\n    ```\n    """\n    if not ignore:\n        token = _VALIDATION_ENABLED.set(False)\n        try:\n            yield\n        finally:\n            _VALIDATION_ENABLED.reset(token)\n    else:\n        yield  # dummy context', new='class disable_message_validation:\n    """Context manager to temporarily disable message field validation\n    Use with `with` keyword:\n    `with disable_message_validation():`\n\n    Optionally pass in ignore=True to do nothing, e.g. for debugging:\n\n    ```\n    DEBUG = True\n    with disable_message_validation(ignore=DEBUG):\n        ... # disable validation unless DEBUG is True\n    ```\n\n    Can also be applied as a function decorator:\n    `@disable_message_validation()`\n    """\n\n    def __init__(self, ignore=False):\n        self._ignore = ignore\n        # One entry per active `with` block entered through this instance.\n        # A dummy (ignored) block is recorded as None.\n        self._tokens = []\n\n    def __enter__(self) -> None:\n        if self._ignore:\n            self._tokens.append(None)  # dummy context\n        else:\n            self._tokens.append(_VALIDATION_ENABLED.set(False))\n\n    def __exit__(self, exc_type, exc_value, traceback) -> bool:\n        token = self._tokens.pop()\n        if token is not None:\n            _VALIDATION_ENABLED.reset(token)\n        # never swallow an exception raised inside the block\n        return False\n\n    def __call__(self, func):\n        @wraps(func)\n        def inner(*args, **kwds):\n            # fresh manager per call: recursion and threads do not share tokens\n            with type(self)(self._ignore):\n                return func(*args, **kwds)\n\n        return inner'),
+    dict(name="c09-disable-validation-class-keeps-flag-off-after-exception", property="C09", rule="C09-C", file=V, old='@contextmanager\ndef disable_message_validation(ignore=False):\n    """Context manager function to temporarily disable message field validation\n    Use with `with` keyword:\n    `with disable_message_validation():`\n\n    Optionally pass in ignore=True to do nothing, e.g. for debugging:\n\n    ```\n    DEBUG = True\n    with disable_message_validation(ignore=DEBUG):\n        ... # disable validation unless DEBUG is True\n    ```\n    """\n    if not ignore:\n        token = _VALIDATION_ENABLED.set(False)\n        try:\n            yield\n        finally:\n            _VALIDATION_ENABLED.reset(token)\n    else:\n        yield  # dummy context', new='class disable_message_validation:\n    """Context manager to temporarily disable message field validation\n    Use with `with` keyword:\n    `with disable_message_validation():`\n\n    Optionally pass in ignore=True to do nothing, e.g. for debugging:\n\n    ```\n    DEBUG = True\n    with disable_message_validation(ignore=DEBUG):\n        ... # disable validation unless DEBUG is True\n    ```\n\n    Can also be applied as a function decorator:\n    `@disable_message_validation()`\n    """\n\n    def __init__(self, ignore=False):\n        self._ignore = ignore\n        # One entry per active `with` block entered through this instance.\n        # A dummy (ignored) block is recorded as None.\n        self._tokens = []\n\n    def __enter__(self) -> None:\n        if self._ignore:\n            self._tokens.append(None)  # dummy context\n        else:\n            self._tokens.append(_VALIDATION_ENABLED.set(False))\n\n    def __exit__(self, exc_type, exc_value, traceback) -> bool:\n        token = self._tokens.pop()\n        if token is not None and exc_type is None:\n            _VALIDATION_ENABLED.reset(token)\n        # never swallow an exception raised inside the block\n        return False\n\n    def __call__(self, func):\n        @wraps(func)\n        def inner(*args, **kwds):\n            # fresh manager per call: recursion and threads do not share tokens\n            with type(self)(self._ignore):\n                return func(*args, **kwds)\n\n        return inner'),
 ]
